@@ -25,6 +25,9 @@ from armulator.armv6.tlb_record import TLBRecord
 class ArmV6:
     def __init__(self, config_file=path.join(path.abspath(path.dirname(__file__)), 'arm_configurations.json')):
         configurations.load(config_file)
+        # the configuration is a process-wide singleton: keep this instance's own copy and re-install it
+        # whenever the instance runs, so that instances created from different files do not affect each other
+        self.configs = configurations.configs
         self.registers = Registers()
         self.run = True
         self.opcode = 0
@@ -62,6 +65,7 @@ class ArmV6:
         print(self.format_registers())
 
     def take_reset(self):
+        configurations.configs = self.configs
         self.registers.cpsr.m = 0b10011
         if have_security_ext():
             self.registers.scr.ns = 0
@@ -1806,6 +1810,7 @@ class ArmV6:
             self.registers.increment_pc(self.this_instr_length() // 8)
 
     def emulate_cycle(self):
+        configurations.configs = self.configs
         try:
             instr = self.fetch_instruction()
             opcode_c = self.decode_instruction(instr)
